@@ -128,7 +128,7 @@ def run():
                      'creation of the part file (something is on disk that is not the old destination)',
                 bounds=dict(quick='text/binary x dest absent/present x body {no write, 1 write, 7 writes incl. 9000 B, one 1 MiB write} '
                                   'x overwrite T/F (32 configs) + file_perms=0o600, pre-existing part+overwrite_part, buffering=0 '
-                                  'on the 7-write body, AtomicSaver with relative path; every event x {before, after}',
+                                  'on the 7-write body, AtomicSaver with relative path; every event x {before, after}; the publishing call failing with EXDEV/EIO/EPERM/EMLINK',
                             thorough='the 32 configs x file_perms {None,0o600} x part {absent, present+overwrite_part} x '
                                      'buffering {default, 0}; relative path; 6 seeded random write patterns; every event x {before, after}'))
     root = tempfile.mkdtemp(prefix='verif-C04-')
@@ -163,6 +163,27 @@ def run():
                 if ref['listing'] != [F.DEST]:
                     H.fail('normal_exit_complete_no_part', SITE, 'extra file left after normal exit', wit, repr(ref['listing']), snip_ref)
             pub = order_checks(H, cfg, log, wit)
+            if pub is not None:
+                # the publishing call itself fails (cross-device link/rename, I/O error, ...): whatever the code does next,
+                # the destination may only ever be changed by one successful rename/replace/link(part, dest)
+                import errno as _errno
+                for en in (_errno.EXDEV, _errno.EIO, _errno.EPERM, _errno.EMLINK):
+                    fr = F.fault_run(cfg, faults=[pub], root=root, fault_errno=en)
+                    H.ev(key=(ci, 'pubfault', en), nontrivial=True, part='publishing call fails',
+                         sample=dict(cfg=cfg, errno=_errno.errorcode[en], outcome=repr(fr['exc'])))
+                    d_after = fr['dest'][0] if fr['dest'] else None
+                    later_ok = [e for e in fr['log'][pub + 1:] if e['op'] in F.PUBLISH_OPS and e['paths'][1:] == [F.DEST]
+                                and not e.get('raised') and not e.get('fault')]
+                    if d_after != old and not later_ok:
+                        H.fail('publish_one_atomic_step', SITE,
+                               'destination changed although the publishing call failed (non-atomic fallback)',
+                               dict(wit, failing_event=log[pub]['op'], errno=_errno.errorcode[en]),
+                               '%s(part, dest) raised %s; afterwards dest = %s, exception %r, no later rename/replace/link event'
+                               % (log[pub]['op'], _errno.errorcode[en], short(d_after), fr['exc']),
+                               F_snip(cfg, 'import errno\nr = F.crash_run(cfg)\npub = [i for i, e in enumerate(r["log"]) if e["op"] in F.PUBLISH_OPS '
+                                           'and e["paths"][1:] == [F.DEST]][0]\nfr = F.fault_run(cfg, faults=[pub], fault_errno=errno.%s)\n'
+                                           'assert (fr["dest"][0] if fr["dest"] else None) == OLD(cfg), fr["dest"] and fr["dest"][0][:40]\n'
+                                           % _errno.errorcode[en]))
             first_open = min([i for i, e in enumerate(log) if e['op'] in ('open', 'pyopen')] or [len(log)])
             for k in range(len(log)):
                 for when in ('before', 'after'):
